@@ -146,6 +146,12 @@ def run_log(case):
                     desc, [v.name for v in lc.variables]))
             except (KeyError, AttributeError):
                 pass
+            # a caller that swallowed the rejection and uses the configuration anyway: still nothing is sent
+            for meth in ('start', 'stop', 'delete'):
+                try:
+                    getattr(lc, meth)()
+                except Exception:  # noqa
+                    pass
             s.sleep(0.5)
             if len(link.tx) != n_tx and not any(p == 15 for t, p, c, d, cl in link.tx[n_tx:]):
                 out.fail('log:add-config-transmits', desc)
@@ -308,22 +314,25 @@ def run_sync(case):
                 out.fail('sync:connect', repr(rec.names()))
                 return out
             dev, link = env.device, env.world.links[0]
-            lc = LogConfig('s', 100)
-            names = []
-            for i in case['vars']:
-                e = spec['log_toc'][i % 5]
-                n = '%s.%s' % (e['group'], e['name'])
-                if n not in names:
-                    names.append(n)
-                    lc.add_variable(n)
+            confs = []
+            for ci in range(case.get('nconf', 1)):
+                lc = LogConfig('s%d' % ci, 100)
+                names = []
+                for i in (case['vars'] if ci == 0 else case['vars'][::-1][:2]):
+                    e = spec['log_toc'][(i + ci) % 5]
+                    n = '%s.%s' % (e['group'], e['name'])
+                    if n not in names:
+                        names.append(n)
+                        lc.add_variable(n)
+                confs.append((lc, names))
             collected = []
             state = {'done': False, 'error': None}
 
             def consumer():
                 try:
-                    with SyncLogger(cf, lc) as logger:
+                    with SyncLogger(cf, [c[0] for c in confs] if len(confs) > 1 else confs[0][0]) as logger:
                         for entry in logger:
-                            collected.append((entry[0], dict(entry[1])))
+                            collected.append((entry[0], dict(entry[1]), entry[2].name))
                             if case['consumer_gap']:
                                 s.sleep(case['consumer_gap'])
                 except Exception as e:  # noqa
@@ -332,21 +341,25 @@ def run_sync(case):
             s.spawn(consumer, 'consumer')
             s.sleep(0.5)
             delivered = []
-            blk = dev.blocks.get(lc.id)
-            if not blk or not blk['started']:
-                out.fail('sync:block-not-started', repr(dev.blocks))
-                return out
+            for lc, names in confs:
+                blk = dev.blocks.get(lc.id)
+                if not blk or not blk['started']:
+                    out.fail('sync:block-not-started', repr(dev.blocks))
+                    return out
             for k in range(case['n']):
-                body = b''
-                vals = {}
-                for j, ((tb, vid), n) in enumerate(zip(blk['vars'], names)):
-                    sz = TYPES[tb & 0xf][1]
-                    chunk = bytes(((k + 1) * (j + 3) * 29 + x) & 0xff for x in range(sz))
-                    body += chunk
-                    vals[n] = _ref_decode(tb & 0xf, chunk)
-                ts = (case['ts0'] + k * 10) & 0xFFFFFF
-                link.deliver((5, 2, bytes([lc.id, ts & 0xff, (ts >> 8) & 0xff, (ts >> 16) & 0xff]) + body), delay=0.0005)
-                delivered.append((ts, vals))
+                for ci, (lc, names) in enumerate(confs):
+                    blk = dev.blocks.get(lc.id)
+                    body = b''
+                    vals = {}
+                    for j, ((tb, vid), n) in enumerate(zip(blk['vars'], names)):
+                        sz = TYPES[tb & 0xf][1]
+                        chunk = bytes(((k + 1) * (j + 3 + ci) * 29 + x) & 0xff for x in range(sz))
+                        body += chunk
+                        vals[n] = _ref_decode(tb & 0xf, chunk)
+                    # blocks with the same period are sent in the same firmware tick: same time stamp
+                    ts = (case['ts0'] + k * 10) & 0xFFFFFF
+                    link.deliver((5, 2, bytes([lc.id, ts & 0xff, (ts >> 8) & 0xff, (ts >> 16) & 0xff]) + body))
+                    delivered.append((ts, vals, lc.name))
                 s.sleep(case['emit_gap'])
             s.sleep(0.2)
             if case['end'] == 'close':
@@ -360,7 +373,7 @@ def run_sync(case):
             out.fail('sync:hang', repr(e)[:300])
             return out
         out.nontrivial = case['n'] >= 2
-        out.feat('samples-%d' % min(case['n'], 3), 'end-' + case['end'], 'slow-consumer' if case['consumer_gap'] else 'fast-consumer')
+        out.feat('samples-%d' % min(case['n'], 3), 'configs-%d' % case.get('nconf', 1), 'end-' + case['end'], 'slow-consumer' if case['consumer_gap'] else 'fast-consumer')
         if not state['done']:
             out.fail('sync:iterator-does-not-end', 'consumer still blocked after disconnect (%s)' % case['end'])
         if state['error'] is not None:
@@ -369,10 +382,10 @@ def run_sync(case):
             delivered_cmp = delivered[:len(collected)]     # a slow consumer may lose what was still queued at disconnect
         else:
             delivered_cmp = delivered
-        ok = len(collected) == len(delivered_cmp) and all(a[0] == b[0] and set(a[1]) == set(b[1]) and all(_eq(a[1][k], b[1][k]) for k in a[1])
+        ok = len(collected) == len(delivered_cmp) and all(a[0] == b[0] and a[2] == b[2] and set(a[1]) == set(b[1]) and all(_eq(a[1][k], b[1][k]) for k in a[1])
                                                        for a, b in zip(collected, delivered_cmp))
         if not ok:
-            out.fail('sync:samples', 'device sent %d samples %r, iterator yielded %d %r' % (len(delivered), [d[0] for d in delivered], len(collected), [c[0] for c in collected]))
+            out.fail('sync:samples', 'device sent %d samples %r, iterator yielded %d %r' % (len(delivered), [(d[0], d[2]) for d in delivered], len(collected), [(c[0], c[2]) for c in collected]))
         if s.deaths:
             out.fail('sync:thread-died:' + s.deaths[0][1][:60], s.deaths[0][2][-500:])
     return out
@@ -427,7 +440,7 @@ def log_case(draw):
             'schedule': draw(_sched), 'delays': draw(st.sampled_from([[], [0.0], [0.0], [0.0, 0.001], [0.002]]))}
 
 
-sync_case = st.fixed_dictionaries({'vars': st.lists(st.integers(0, 4), min_size=1, max_size=4), 'n': st.integers(0, 8),
+sync_case = st.fixed_dictionaries({'vars': st.lists(st.integers(0, 4), min_size=1, max_size=4), 'n': st.integers(0, 8), 'nconf': st.sampled_from([1, 1, 2]),
                                    'emit_gap': st.sampled_from([0.0, 0.001, 0.1]), 'consumer_gap': st.sampled_from([0, 0, 0.05, 0.3]),
                                    'ts0': st.sampled_from([0, 65530, 0xFFFFF0]), 'end': st.sampled_from(['close', 'close', 'fault']), 'schedule': _sched})
 
